@@ -222,8 +222,11 @@ Next == Draw \/ Damage
 Spec == Init /\ [][Next]_vars
 
 \* file descriptions whose blocks are not empty (TT must be non-empty for a block to exist)
+\* (Rle() leaves out derandomisation, which first touches byte 618: randomised blocks are kept below that here;
+\*  longer randomised blocks are built by tools/bzfmt.py and judged by the calibrated inspector)
 Sane(f) == \A s \in 1..Len(f.streams) : \A b \in 1..Len(f.streams[s].blocks) :
-             Len(TT(f.streams[s].blocks[b].used, f.streams[s].blocks[b].syms)) >= 1
+             LET bk0 == f.streams[s].blocks[b] ntt0 == Len(TT(bk0.used, bk0.syms)) IN
+             ntt0 >= 1 /\ (bk0.rand = 1 => ntt0 <= 617)
 Verdict(f) == [valid |-> ValidFile(f),
                lbz_rejects |-> \E s \in 1..Len(f.streams) : \E b \in 1..Len(f.streams[s].blocks) : LbzRejects(f.streams[s].blocks[b])]
 Export ==
